@@ -700,7 +700,7 @@ def build():
     u._emit(hdr + ' {'); u._open_header = hdr + ' {'
     SET_P = ('dec_set(self.details@) is Some', 'all_in_range(self.details@) ==> set_view(d) == dec_set(self.details@)->Some_0')
     VEC_P = ('dec_vec(self.details@) is Some', 'all_in_range(self.details@) ==> dvs(d@) =~= dec_vec(self.details@)->Some_0')
-    u.fn(MOD, 'check_error_details', within=hdr, body_edits=[r27_str_const_match], body_start='        broadcast use lemma_dv_same;',
+    u.fn(MOD, 'check_error_details', within=hdr, body_edits=[r23_if_present, r27_str_const_match], body_start='        broadcast use lemma_dv_same;',
          loops={0: dict(iter='it', invariant=SEQINV + [
              'dec_set(self.details@.take(it.index@ as int)) is Some',
              'all_in_range(self.details@) ==> set_view(details) == dec_set(self.details@.take(it.index@ as int))->Some_0'])},
@@ -709,7 +709,7 @@ def build():
     u.fn(MOD, 'get_error_details', within=hdr, body_start='        broadcast use axiom_default_error_details;', ensures=[
         Clause('GS1_decodable_details_give_the_set', '%s ==> (%s)' % (SET_P[0], SET_P[1].replace('set_view(d)', 'set_view(r)'))),
         Clause('GS2_undecodable_details_give_the_empty_set', '!(%s) ==> set_view(r) == set_empty()' % SET_P[0])])
-    u.fn(MOD, 'check_error_details_vec', within=hdr, body_edits=[r27_str_const_match], body_start='        broadcast use lemma_dv_same;',
+    u.fn(MOD, 'check_error_details_vec', within=hdr, body_edits=[r23_if_present, r27_str_const_match], body_start='        broadcast use lemma_dv_same;',
          loops={0: dict(iter='it', invariant=SEQINV + [
              'dec_vec(self.details@.take(it.index@ as int)) is Some',
              'all_in_range(self.details@) ==> dvs(details@) =~= dec_vec(self.details@.take(it.index@ as int))->Some_0'])},
